@@ -37,7 +37,11 @@ prop("C04", True,
      None)
 prop("C05", False, "", "", "", NOT_YET)
 prop("C06", False, "", "", "", NOT_YET)
-prop("C07", False, "", "", "", NOT_YET)
+prop("C07", True,
+     "SSA taint analysis (source: memory written by encoding/binary.Read; sinks: make sizes; sanitizers: dominating clamps, bounded helper summaries), call-graph reachability with recovering-frame cut, path-sensitive error-before-use dataflow",
+     "Structural necessary conditions of totality: (R1) no allocation size reachable from wkb.Read/Decode or hex.Decode is an input count unless bounded at that point; (R2) every explicit panic, single-result assertion and index/slice expression reachable from the five decoder entry points is below the frame that recovers and sets the error result (GeoJSON) or statically safe (WKB/hex), and every value passed to panic implements error (the recovery asserts e.(error)); (R3) no decoder function uses a value before testing the error it was returned with. This covers the statement's 'never panics' and 'count fields are not trusted' for all inputs; tests sample zero malformed inputs.",
+     "Not decided: total memory as a multiple of input length beyond 'no allocation sized by an unchecked count' (encoding/json's own allocations, recursion depth); the re-encode/decode fixpoint. Trusted: encoding/binary, encoding/json, encoding/hex do not panic on the values passed. Reachability: static calls + function values resolved by signature within the package; interface method calls into the standard library are not followed.",
+     None)
 prop("C08", False, "", "", "", NOT_YET)
 prop("C09", False, "", "", "", NOT_YET)
 prop("C10", True,
